@@ -41,6 +41,11 @@ type e4Config struct {
 	PingDelayMs int `json:"pingDelayMs,omitempty"`
 	// OnErrorCalls: the OnError callback reads the client's statistics and current BaseClient (an application logging them)
 	OnErrorCalls bool `json:"onErrorCalls,omitempty"`
+	// CancelSubmitCtx: every Publish/Subscribe/Unsubscribe call gets a context of its own that is cancelled as soon as the
+	// call returned (ctx, cancel := WithTimeout(...); defer cancel()), as request-scoped application code does
+	CancelSubmitCtx bool `json:"cancelSubmitCtx,omitempty"`
+	// Transport: how the transports report their own closure (memConn.flavour bits), rotated over the connections
+	Transport int `json:"transport,omitempty"`
 	// StateHandle: the application registers its handler from the ConnState callback when a connection becomes Active
 	// (the usual on-connect pattern), under a new handler number 300+connection
 	StateHandle bool `json:"stateHandle,omitempty"`
@@ -426,6 +431,9 @@ func e4RunBody(c e4Case, started chan<- *e4Env) (res *e4Result) {
 	b.grantMax = c.Cfg.GrantMax
 	b.pingDelay = time.Duration(c.Cfg.PingDelayMs) * time.Millisecond
 	d := &vdialer{b: b, maxRead: c.Cfg.MaxRead}
+	if c.Cfg.Transport != 0 {
+		d.flavour = func(conn int) int { return (c.Cfg.Transport + conn - 1) & 7 }
+	}
 	res = &e4Result{Case: c}
 	e := &e4Env{c: c, log: log, b: b, d: d, res: res}
 	started <- e
@@ -583,6 +591,12 @@ func e4RunBody(c e4Case, started chan<- *e4Env) (res *e4Result) {
 		defer submitMu.Unlock()
 		q := e4Req{Idx: s.Idx, Kind: s.Kind, QoS: s.QoS, Step: s, PreConn: !connStarted, InOutage: held}
 		var err error
+		ctx := ctx
+		if c.Cfg.CancelSubmitCtx {
+			sctx, scancel := context.WithCancel(ctx)
+			ctx = sctx
+			defer scancel()
+		}
 		if c.Cfg.DirectQoS0 && s.Kind == "pub" && s.QoS == 0 && rc.Client() == nil {
 			// With DirectlyPublishQoS0 a QoS0 publish goes straight to the current BaseClient; before the first
 			// SetClient there is none (the library dereferences nil then).  Outside every listed property: not submitted.
@@ -1127,9 +1141,11 @@ func e4GenConfig(rt *rapid.T) e4Config {
 		OnErrorSleepUs: rapid.SampledFrom([]int{0, 0, 0, 1500, 3000}).Draw(rt, "onErrorSleepUs"),
 		GrantMax:       rapid.SampledFrom([]int{0, 0, 0, 1, 2}).Draw(rt, "grantMax"),
 		// DirectlyPublishQoS0: QoS0 messages bypass the queue (C03 forces the default mode, which is what it speaks of)
-		DirectQoS0:   rapid.IntRange(0, 3).Draw(rt, "directQoS0") == 0,
-		OnErrorCalls: rapid.IntRange(0, 2).Draw(rt, "onErrorCalls") == 0,
-		StateCalls:   rapid.IntRange(0, 2).Draw(rt, "stateCalls") == 0,
+		DirectQoS0:      rapid.IntRange(0, 3).Draw(rt, "directQoS0") == 0,
+		OnErrorCalls:    rapid.IntRange(0, 2).Draw(rt, "onErrorCalls") == 0,
+		StateCalls:      rapid.IntRange(0, 2).Draw(rt, "stateCalls") == 0,
+		CancelSubmitCtx: rapid.IntRange(0, 2).Draw(rt, "cancelSubmitCtx") == 0,
+		Transport:       rapid.SampledFrom([]int{0, 0, 1, 2, 3, 4, 5, 7}).Draw(rt, "transport"),
 	}
 }
 
